@@ -3,6 +3,7 @@ import AiutiVerif.Split.Drive
 import AiutiVerif.Parse.Drive
 import AiutiVerif.Gather.Drive
 import AiutiVerif.Batcher.Drive
+import AiutiVerif.Buffer.Drive
 /-!
 Model driver: reads one case per line on stdin (`<component> key=value …`), prints the
 model's answer on one line.  Imports `Model`/`Drive` files only (never a proof file).
@@ -18,6 +19,7 @@ def answer (line : String) : String :=
     else if comp == "parse" then Parse.drive fs
     else if comp == "gather" then Gather.drive fs
     else if comp == "bat" then Batcher.drive fs
+    else if comp == "buf" then Buffer.drive fs
     else if comp == "ping" then "pong"
     else "bad-component"
   | [] => "bad-component"
